@@ -102,6 +102,34 @@ func c05Run(c *ev.Ctx) {
 		model[d.Op.Path] = &c05Obj{Kind: "dataset", DS: &dd, Attrs: attrModel{}, Dims: d.Op.Dims}
 		dss = append(dss, d.Op.Path)
 	}
+	// variable-length data (global heap collections, also larger than the default 4 KiB)
+	// followed by another object, so that a collection that claims more than it was given
+	// collides with something
+	var vlenWant map[string][][]byte
+	if r.Chance(1, 3) {
+		vlenWant = map[string][][]byte{}
+		nv := r.Range(2, 6)
+		var strs []string
+		var want [][]byte
+		for i := 0; i < nv; i++ {
+			n := []int{0, 5, 60, 4049, 5000, 9000}[r.Weighted([]int{1, 3, 3, 1, 2, 1})]
+			b := r.Bytes(n)
+			for j := range b {
+				b[j] = 'a' + b[j]%26
+			}
+			strs = append(strs, string(b))
+			want = append(want, b)
+		}
+		v := hx.Val{Kind: "vstr", S: strs}
+		s.Ops = append(s.Ops, hx.Op{K: "create_ds", Path: "/vlen_strings", DT: "vstr", Dims: []uint64{uint64(nv)}, Data: &v})
+		vlenWant["/vlen_strings"] = want
+		av := hx.GenNumeric(r, "[]f64", 8, 2)
+		s.Ops = append(s.Ops, hx.Op{K: "create_ds", Path: "/after_vlen", DT: "f64", Dims: []uint64{8}, Data: &av})
+		dd := c01DS{Op: s.Ops[len(s.Ops)-1], Family: "numeric", Layout: "contiguous"}
+		model["/after_vlen"] = &c05Obj{Kind: "dataset", DS: &dd, Attrs: attrModel{}, Dims: []uint64{8}}
+		model["/vlen_strings"] = &c05Obj{Kind: "dataset", Attrs: attrModel{}, Dims: []uint64{uint64(nv)}}
+		dss = append(dss, "/after_vlen")
+	}
 	// attributes (some objects pushed into dense storage)
 	targets := append(append([]string(nil), dss...), groups...)
 	for _, t := range targets {
@@ -226,9 +254,21 @@ func c05Run(c *ev.Ctx) {
 		c.Violation("strict:undecodable", wit(err.Error()))
 		return
 	}
+	// the library's fractal-heap ids do not follow the specification (listed finding
+	// decode:heap-id / fheap-offset-in-header): a dense link object that cannot be decoded at
+	// the place such an id names is that deviation again, not another one
+	heapIDsOff := false
+	for _, is := range strict.Issues {
+		if is.Key == "decode:heap-id" || strings.HasPrefix(is.Key, "fheap-offset-in-header") {
+			heapIDsOff = true
+		}
+	}
 	strictKeys := map[string]specdec.Issue{}
 	for _, is := range strict.Issues {
 		k := c05NormIssue(is.Key)
+		if heapIDsOff && is.Key == "decode:msg:link" && strings.Contains(is.Detail, "dense link") {
+			k = "decode:heap-id"
+		}
 		if _, ok := strictKeys[k]; !ok {
 			strictKeys[k] = is
 		}
@@ -249,6 +289,9 @@ func c05Run(c *ev.Ctx) {
 	}
 	for _, is := range append(append([]specdec.Issue(nil), tol.Issues...), tol.CheckExtents()...) {
 		k := c05NormIssue(is.Key)
+		if heapIDsOff && is.Key == "decode:msg:link" && strings.Contains(is.Detail, "dense link") {
+			k = "decode:heap-id"
+		}
 		if _, ok := allKeys[k]; !ok {
 			allKeys[k] = is
 		}
@@ -336,6 +379,23 @@ func c05Run(c *ev.Ctx) {
 				c.Violation("decode-mismatch:data:"+d.Layout+":"+fam, wit(map[string]any{"path": p, "decoded_len": len(raw), "written_len": len(want), "first_diff": firstDiff(raw, want)}))
 			}
 			c.Count("datasets_compared_bytewise", 1)
+		}
+		if want, isV := vlenWant[p]; isV {
+			c.Count("vlen_datasets_compared", 1)
+			if o.Type == nil || o.Type.Class != 9 {
+				c.Violation("decode-mismatch:vlen-class", wit(map[string]any{"path": p}))
+			} else if raw, rerr := tol.ReadData(o); rerr != nil {
+				c.Violation("decode-mismatch:data-unreadable:vlen", wit(map[string]any{"path": p, "err": rerr.Error()}))
+			} else if els, verr := tol.VLenElements(raw, o.Type); verr != nil {
+				c.Violation("decode-mismatch:vlen-elements-unreadable", wit(map[string]any{"path": p, "err": verr.Error()}))
+			} else {
+				for i := range want {
+					if i >= len(els) || !bytes.Equal(els[i], want[i]) {
+						c.Violation("decode-mismatch:vlen-element", wit(map[string]any{"path": p, "index": i, "written_len": len(want[i])}))
+						break
+					}
+				}
+			}
 		}
 		// attributes
 		if src.Attrs != nil {
